@@ -154,7 +154,7 @@ class n0dict__(dict):
                 self._find(xpath_list[0:last_xpath_index], self, return_lists=True)
             if i == 0 or (
                 recursively and
-                isinstance(cur_value, n0dict__) and not len(cur_value)
+                isinstance(cur_value, dict) and not len(cur_value)
             ):
                 if isinstance(parent_node, list) and not isinstance(node_name_index, int):
                     if not isinstance(node_name_index, str) or not node_name_index.startswith('[') or not node_name_index.endswith(']'):
